@@ -103,7 +103,7 @@ Print Assumptions C20f_goto_blocks_forward.
 
 (* ---- the Fortran-implemented wrappers (module procedures that call a C function through a nested BIND(C) interface) *)
 
-(* mp_ok holds of every regenerated row except the procedures named in FtocMod.mp_known *)
+(* mp_ok holds of every regenerated row (FtocMod.mp_known is empty) *)
 Theorem C20f_modproc_table_checked : mp_table_ok Gen_C20f.mp_rows = true.
 Proof. vm_compute. reflexivity. Qed.
 Print Assumptions C20f_modproc_table_checked.
@@ -120,10 +120,12 @@ Theorem C20f_modproc_outputs_reach_caller : forall r, In r Gen_C20f.mp_rows -> m
 Proof. exact (fun r => mp_row_sound Gen_C20f.mp_rows r C20f_modproc_table_checked). Qed.
 Print Assumptions C20f_modproc_outputs_reach_caller.
 
-(* literal copies of three excused rows fail mp_ok: the exception list is not vacuous *)
+(* the rows of the OLD code (before 9418046 / 26cde09 / f901b55 / 763a68d) fail mp_ok, are not excused any more, and each of
+   them alone falsifies the table obligation *)
 Theorem C20f_modproc_known_refuted : mp_ok w_coord_id = false /\ mp_ok w_discrete_ptset_write = false /\ mp_ok w_family_name_read = false /\
-  arity_ok w_coord_id = false /\ mp_row_known w_coord_id = true /\ mp_row_known w_discrete_ptset_write = true /\
-  mp_row_known w_family_name_read = true.
+  arity_ok w_coord_id = false /\ mp_row_known w_coord_id = false /\ mp_row_known w_discrete_ptset_write = false /\
+  mp_row_known w_family_name_read = false /\ mp_table_ok [w_coord_id] = false /\ mp_table_ok [w_discrete_ptset_write] = false /\
+  mp_table_ok [w_family_name_read] = false.
 Proof. exact mp_known_refuted. Qed.
 Print Assumptions C20f_modproc_known_refuted.
 
